@@ -165,3 +165,8 @@ pub fn thin<T: Clone>(v: &[T], max: usize) -> Vec<T> {
     }
     out
 }
+
+/// every prime in (lo, hi]: each one exercises the number-theoretic index maps of Rader's / Bluestein's algorithm
+pub fn primes_between(lo: usize, hi: usize) -> Vec<usize> {
+    ((lo + 1)..=hi).filter(|&n| is_prime(n as u64)).collect()
+}
